@@ -111,17 +111,19 @@ def _leaves(e, env, conds, depth=0):
         elif k == "MethodCall" and e["method"] in ms:
             key, args = e["method"], [e["recv"]] + list(e["args"])
         if key in ms:
-            vals = []
-            for a in args:
+            fn2 = ms[key]
+            env2, names2 = _env_for(fn2)
+            if len(names2) != len(args):
+                raise S.Untranslatable("call `%s`" % A.unparse(e)[:40])
+            for (nm, gsyms), a in zip(names2, args):
+                if gsyms is None:
+                    # a plain f32 parameter of the sibling (a private helper such as `div_partials(self, v, d)`)
+                    env2.vars[nm] = S.to_sym(a, env)
+                    continue
                 lv = _leaves(a, env, [], depth + 1)
                 if len(lv) != 1 or lv[0][1] == "scalar":
                     raise S.Untranslatable("operand `%s`" % A.unparse(a)[:40])
-                vals.append(env.vars[lv[0][2]] if lv[0][1] == "operand" else lv[0][2])
-            fn2 = ms[key]
-            env2, names2 = _env_for(fn2)
-            if len(names2) != len(vals) or any(n[1] is None for n in names2):
-                raise S.Untranslatable("call `%s`" % A.unparse(e)[:40])
-            for (nm, _s), val in zip(names2, vals):
+                val = env.vars[lv[0][2]] if lv[0][1] == "operand" else lv[0][2]
                 env2.vars[nm] = dict({f_: val[f_] for f_ in ("v", "dx", "dy", "dz")}, __prefix__=nm)
             out = []
             for c2, kind2, pay in _leaves(fn2["body"], env2, [], depth + 1):
